@@ -242,6 +242,7 @@ def run(ctx):
     import importlib as _il15
     _il15.import_module("rules.c14").errno_cleared_before_judged(db, rep, "D14-ERRNO-CLEARED")
     d15_narrow_constant_is_int(db, rep)
+    d16_opcode_lookup_exact(db, rep)
 
     # ---- D4: the synthetic name of an inline literal identifies the literal ----------------------------
     # orc_program_append_str_n finds operands BY NAME.  The name made up for an inline literal must therefore be an
@@ -760,3 +761,42 @@ def d15_narrow_constant_is_int(db, rep, rule="D15-NARROW-CONST-IS-INT"):
               "orc_program_add_constant_str keeps the 64-bit result of strtoll for a constant of size < 8: `.const 4 c 0x80000000` holds +2147483648 where "
               "orc_program_add_constant (int) and the bytecode reader hold -2147483648, and `addq d, s, c` differs between the parsed program and its "
               "API-built or bytecode twin (generated C vs JIT/emulation in orcc's output)", line=finals[0].line)
+
+
+def d16_opcode_lookup_exact(db, rep, rule="D16-OPCODE-LOOKUP-EXACT"):
+    """D16: the construction API finds an opcode by its whole name (orc_opcode_find_by_name: strcmp).  The parser decides the size
+    of a literal operand from the opcode it looks up for the line BEFORE it appends the instruction by name: its lookup
+    (orc_parse_find_opcode) must be that same exact lookup - a delegation to it, or a return that lies under strcmp (...) == 0.  A
+    shortcut that accepts a prefix (`swapw` after `swapwl`) gives the literal the size the OTHER opcode's operand has, and the
+    parsed program's constant differs from the API-built one."""
+    from flow import Facts
+    f = db.tu("orcparse").fn.get("orc_parse_find_opcode")
+    if f is None or f.body is None:
+        raise AnalysisBroken("orc_parse_find_opcode not found")
+    rep.saw(f)
+    fc = Facts(f)
+    rets = [r for r in f.walk() if r.k == "ReturnStmt" and r.c and r.c[0] is not None]
+    if not rets:
+        raise AnalysisBroken("orc_parse_find_opcode: no return")
+    n = 0
+    for r in rets:
+        e = strip_casts(r.c[0])
+        if e is None or e.v is not None:
+            continue
+        n += 1
+        ok = e.k == "CallExpr"
+        if not ok:
+            # the value was fetched by a lookup call in the statement just before (x = lookup (); return x;)
+            p_ = f.pos(r)
+            ap = access_path(e)
+            if p_ is not None and ap:
+                prev = [x for x in f.blocks[p_[0]].el[:p_[1]] if x.k == "BinaryOperator" and x.op == "=" and access_path(x.c[0]) == ap]
+                ok = bool(prev) and strip_casts(prev[-1].c[1]) is not None and strip_casts(prev[-1].c[1]).k == "CallExpr" and \
+                    not any(cd[0] != "switch" and any(y.k == "CallExpr" and (y.name or "").startswith("strn") for y in cd[0].walk()) for cd in fc.conds(r))
+        if not ok:
+            ok = any(cd[0] != "switch" and cd[1] is False and any(y.k == "CallExpr" and y.name in ("strcmp", "__builtin_strcmp") for y in cd[0].walk()) for cd in fc.conds(r))
+        rep.check(ok, rule, where(f), "return@%s" % r.line, "the parser's opcode lookup is the exact by-name lookup",
+                  "orc_parse_find_opcode returns `%s` (line %s) without an exact comparison of the whole name: a line whose opcode is a prefix of a remembered "
+                  "one (`swapw` after `swapwl`) gets the other opcode's operand sizes - the literal becomes a constant of another size than in the "
+                  "API-built program" % (unparse(r.c[0])[:40], r.line), line=r.line)
+    return n
